@@ -28,23 +28,52 @@ def cleanup():
     _dir = None
 
 
-def new_node(name=None):
+def new_node(name=None, link=False):
+    """a regular file, or (link=True) a symlink to one, as /dev/disk/by-id/... names are"""
     global _n
     _n += 1
     p = os.path.join(base(), name or "sg%d" % _n)
+    if link:
+        t = p + ".t%d" % _n
+        with open(t, "wb") as f:
+            f.write(b"node")
+        os.symlink(t, p)
+        return p
     with open(p, "wb") as f:
         f.write(b"node")
     return p
 
 
 def replug(path):
+    """the path now names another node (new inode) while handles to the old one stay valid.  Regular file: create +
+    rename over it.  Symlink: create a new target and atomically re-point the link; the old target keeps existing."""
     global _n
     _n += 1
+    if os.path.islink(path):
+        t = path + ".t%d" % _n
+        with open(t, "wb") as f:
+            f.write(b"node%d" % _n)
+        tmp = path + ".l%d" % _n
+        os.symlink(t, tmp)
+        os.rename(tmp, path)
+        return os.stat(path).st_ino
     tmp = path + ".new%d" % _n
     with open(tmp, "wb") as f:
         f.write(b"node%d" % _n)
     os.rename(tmp, path)
     return os.stat(path).st_ino
+
+
+def remove_all(path):
+    """remove the node and every file created for it"""
+    d = os.path.dirname(path)
+    b = os.path.basename(path)
+    for fn in os.listdir(d):
+        if fn == b or fn.startswith(b + "."):
+            try:
+                os.unlink(os.path.join(d, fn))
+            except OSError:
+                pass
 
 
 def unplug(path):
